@@ -625,9 +625,14 @@ void World::doLoad(const Step &st, StepRecord &rec) {
     } else if (cfg.image) {
         bytes = *cfg.image;
     }
-    disk_put(path, bytes);
+    if (src == "missing") disk_remove(path); // no file at that path: documented to be reported as an I/O failure
+    else disk_put(path, bytes);
     std::string what;
     bool ok = loadFrom(path, st.fault, rec, &what);
+    if (src == "missing") {
+        probe("load.missing-file");
+        if (ok || rec.exc != "ios_failure") { if (res.notes.size() < 3) res.notes.push_back("NOTE unclaimed=load-of-a-missing-file " + (ok ? std::string("returned an object") : "threw " + rec.exc)); }
+    }
     if (ok) {
         cur = take_snapshot(*obj);
         gen = 1; pristine = true; loaded_from = -1;
@@ -743,7 +748,12 @@ void World::doParam(const Step &st, StepRecord &rec) {
     std::string setExc;
     size_t dataN = 0;
     try {
-        if (type == 1) { std::vector<int> v; for (auto x : vals) v.push_back(static_cast<int>(x)); dataN = v.size(); p.set(v, dims); }
+        // one value and no explicit shape: every other time through the scalar overloads (documented as equivalent)
+        bool scalarForm = dims.empty() && ((type == 3 ? svals.size() : vals.size()) == 1) && ((type == 3 ? svals[0].size() : static_cast<size_t>(vals[0] & 0xffff)) % 2 == 1);
+        if (type == 1 && scalarForm) { dataN = 1; p.set(static_cast<int>(vals[0])); }
+        else if (type == 2 && scalarForm) { dataN = 1; p.set(bits2f(static_cast<uint32_t>(vals[0]))); }
+        else if (type == 3 && scalarForm) { dataN = 1; p.set(svals[0]); }
+        else if (type == 1) { std::vector<int> v; for (auto x : vals) v.push_back(static_cast<int>(x)); dataN = v.size(); p.set(v, dims); }
         else if (type == 2) { std::vector<float> v; for (auto x : vals) v.push_back(bits2f(static_cast<uint32_t>(x))); dataN = v.size(); p.set(v, dims); }
         else if (type == 3) { dataN = svals.size(); p.set(svals, dims); }
     } catch (...) { setThrew = true; setExc = classify_current_exception(); }
@@ -995,6 +1005,36 @@ void World::doLookup(const Step &st, StepRecord &rec) {
             if (!missing) note("a name the object holds was refused with " + exc);
         }
     }
+    // the whole-container getters and the typed value accessors (right and wrong type)
+    try {
+        h = mix(h, obj->parameters().groups().size());
+        if (obj->parameters().groups().size() != cur.groups.size()) note("groups() and nbGroups() disagree");
+        if (!cur.groups.empty()) {
+            size_t g = r.below(cur.groups.size());
+            const std::vector<EParam> &ps = obj->parameters().group(g).parameters();
+            h = mix(h, ps.size());
+            if (ps.size() != cur.groups[g].params.size()) note("parameters() and nbParameters() disagree");
+            if (!ps.empty()) {
+                const EParam &p = ps[r.below(ps.size())];
+                for (int t = 0; t < 4; ++t) {
+                    try {
+                        uint64_t n = t == 0 ? p.valuesAsByte().size() : t == 1 ? p.valuesAsInt().size() : t == 2 ? p.valuesAsFloat().size() : p.valuesAsString().size();
+                        h = mix(h, n + 16 * static_cast<uint64_t>(t));
+                    } catch (...) { h = mix(h, hash_str(classify_current_exception()) + static_cast<uint64_t>(t)); }
+                }
+            }
+        }
+        h = mix(h, obj->data().frames().size());
+        if (obj->data().frames().size() != cur.frames.size()) note("frames() and nbFrames() disagree");
+        if (!cur.frames.empty()) {
+            size_t f = r.below(cur.frames.size());
+            const EFrame &fr = obj->data().frames()[f];
+            h = mix(h, mix(fr.points().points().size(), fr.analogs().subframes().size()));
+            if (fr.points().points().size() != cur.frames[f].pts.size() || fr.analogs().subframes().size() != cur.frames[f].subs.size()) note("points()/subframes() disagree with the counts");
+            if (!fr.analogs().subframes().empty()) h = mix(h, fr.analogs().subframes()[0].channels().size());
+            if (!fr.points().points().empty()) { std::vector<float> d = fr.points().points()[0].data(); for (float v : d) h = mix(h, f2bits(v)); }
+        }
+    } catch (...) { h = mix(h, hash_str(classify_current_exception()) + 99); note("a whole-container getter threw"); }
     rec.aux = h;
     probe("lookup.by-name");
 }
@@ -1195,10 +1235,23 @@ void World::doFrameMutate(const Step &st, StepRecord &rec) {
     CallerFrame &cf = slots[static_cast<size_t>(st.i[0]) % slots.size()];
     if (!cf.built) { rec.skipped = true; return; }
     Rng r(static_cast<uint64_t>(st.i[2]));
-    int kind = static_cast<int>(st.i[1]) % 7;
+    int kind = static_cast<int>(st.i[1]) % 10;
     Snapshot before = cur;
     try {
         switch (kind) {
+        // 7..9: the same through the by-name accessors, and a by-index insertion past the end of the caller's containers
+        case 7: if (cf.fr.points().nbPoints()) { std::string nm = cf.fr.points().point(r.below(cf.fr.points().nbPoints())).name(); cf.fr.points_nonConst().point_nonConst(nm).z(bits2f(0x4479c000u + static_cast<uint32_t>(r.below(999)))); (void)cf.fr.points().point(nm).data(); (void)cf.fr.points_nonConst().point_nonConst(nm).data_nonConst(); } break;
+        case 8: if (cf.fr.analogs().nbSubframes() && cf.fr.analogs().subframe(0).nbChannels()) {
+                size_t k = r.below(cf.fr.analogs().nbSubframes());
+                std::string nm = cf.fr.analogs().subframe(k).channel(r.below(cf.fr.analogs().subframe(k).nbChannels())).name();
+                cf.fr.analogs_nonConst().subframe_nonConst(k).channel_nonConst(nm).data(bits2f(0x4479c000u + static_cast<uint32_t>(r.below(999))));
+            } break;
+        case 9: {
+                EPoint p; p.name("idx_" + tos(r.below(1000))); p.y(2.5f);
+                cf.fr.points_nonConst().point(p, cf.fr.points().nbPoints() + r.below(2)); // at the end, or one past it (leaves an unnamed point)
+                if (cf.fr.analogs().nbSubframes()) { EChan c; c.name("idxchan"); c.data(1.25f); size_t k = r.below(cf.fr.analogs().nbSubframes()); cf.fr.analogs_nonConst().subframe_nonConst(k).channel(c, cf.fr.analogs().subframe(k).nbChannels() + r.below(2)); }
+                { ESub sf; cf.fr.analogs_nonConst().subframe(sf, cf.fr.analogs().nbSubframes() + r.below(2)); }
+            } break;
         case 0: if (cf.fr.points().nbPoints()) cf.fr.points_nonConst().point_nonConst(r.below(cf.fr.points().nbPoints())).x(bits2f(0x4479c000u + static_cast<uint32_t>(r.below(999)))); break;
         case 1: if (cf.fr.points().nbPoints()) cf.fr.points_nonConst().point_nonConst(r.below(cf.fr.points().nbPoints())).name("mut_" + tos(r.below(1000))); break;
         case 2: { EPoint p; p.name("added_" + tos(r.below(1000))); p.x(1.5f); cf.fr.points_nonConst().point(p); break; }
